@@ -126,7 +126,7 @@ def piecewise_linear_sample(
 
     means = 0.5 * (probability_density[1:] + probability_density[:-1])
     delta = 0.5 * (probability_density[1:] - probability_density[:-1]) / means
-    weights = means / dx
+    weights = means * dx
     weights /= weights.sum()
     # first sample indices of the trapeziums based on their total probability
     inds = rng.choice(weights.size, size=n_samples, p=weights)
